@@ -265,7 +265,8 @@ def fam_shared(case):
 def fam_two_objects(case):
     """State shared between OBJECTS (class-level memo, module-level scratch):
     using object B between two uses of object A must not change what A
-    reports.  Reference: the same operations on A alone."""
+    reports: A.q*, B.q*, A.q*  and, for every mutator m,
+    A.m, B.m, A.m, A.q*.  Reference: the same operations on A alone."""
     dname, mi, tier = case
     drv = D.DRIVERS[dname]
     modelA = drv.models(tier)[mi]
@@ -288,6 +289,11 @@ def fam_two_objects(case):
                 ma = drv.apply(a, ma, spec)
                 if ma is None:
                     continue
+                all_q(a, ma)
+                ma2 = drv.apply(a, ma, spec)
+                if ma2 is None:
+                    continue
+                ma = ma2
             ref = all_q(a, ma)
         except Exception:   # noqa
             continue
@@ -307,6 +313,8 @@ def fam_two_objects(case):
                     all_q(b, mb)
             except Exception:   # noqa
                 pass
+            all_q(a, ma)
+            ma = drv.apply(a, ma, spec)
         else:
             all_q(b, mb)
         got = all_q(a, ma)
